@@ -935,6 +935,8 @@ type cbFill struct {
 	pos         int   // position in the cycle of the collection around the value being filled (-1: none)
 	sib         int   // ordinal of the collection being filled among the collections of its struct
 	emptyNonNil bool
+	imode       int // how integers are filled: 0 zero, 1 max, 2 -1, 3 seeded random; see cbScalarModes
+	bmode       int // how booleans are filled: 0 false, 1 true, 3 seeded random
 }
 
 // Collection shapes derived from the structure, not from the type. Every collection has a position in a cycle of 4
@@ -946,6 +948,28 @@ type cbFill struct {
 //	fill 1: outer 2 / inner 3 / 1 / 4     fill 2: outer 1 / inner 2 / 3 / 4     fill 3: outer 3 / inner 1 / 2 / 4
 //	fill 4: outer 2 / inner EMPTY         fill 5: second collection 2 / its inner EMPTY
 var cbShapes = [][]int{{0, 0, 0, 0}, {2, 3, 1, 4}, {1, 2, 3, 4}, {3, 1, 2, 4}, {2, 0, 1, 3}, {3, 2, 0, 1}}
+
+// Integers and booleans are filled independently of each other: the structural fills pair every integer value class
+// (0, max, -1) with flags off and with ALL flags on (an id 0 with its "set" flag on, all attribute bits of a batch at
+// once, ...). {integers, booleans} per fill; 3 = seeded random.
+var cbScalarModes = [][2]int{{0, 0}, {1, 1}, {2, 0}, {0, 1}, {2, 1}, {1, 0}}
+
+func (f *cbFill) setScalarModes(fill int) {
+	f.imode, f.bmode = 3, 3
+	if fill < len(cbScalarModes) {
+		f.imode, f.bmode = cbScalarModes[fill][0], cbScalarModes[fill][1]
+	}
+}
+
+func (f *cbFill) boolv() bool {
+	switch f.bmode {
+	case 0:
+		return false
+	case 1:
+		return true
+	}
+	return f.rng.Intn(2) == 1
+}
 
 func cbShapeOf(fill int) []int {
 	if fill < len(cbShapes) {
@@ -1022,7 +1046,7 @@ func (f *cbFill) intOf(bits int) int64 {
 		max = int64(1)<<(uint(bits)-1) - 1
 		min = -max - 1
 	}
-	switch f.mode {
+	switch f.imode {
 	case 0:
 		return 0
 	case 1:
@@ -1140,7 +1164,7 @@ func (f *cbFill) value(v reflect.Value) {
 	}
 	switch t.Kind() {
 	case reflect.Bool:
-		v.SetBool(f.pick(2) == 1)
+		v.SetBool(f.boolv())
 	case reflect.Int8:
 		v.SetInt(f.intOf(8))
 	case reflect.Int16:
@@ -1272,10 +1296,10 @@ func (f *cbFill) level(c CompressionCodec) int {
 
 func (f *cbFill) recordBatch(codec CompressionCodec, nonEmpty bool) *RecordBatch {
 	b := &RecordBatch{FirstOffset: f.intOf(64), PartitionLeaderEpoch: int32(f.intOf(32)), Version: 2, Codec: codec,
-		CompressionLevel: f.level(codec), Control: false, LogAppendTime: f.pick(2) == 1,
+		CompressionLevel: f.level(codec), Control: f.boolv(), LogAppendTime: f.boolv(),
 		LastOffsetDelta: int32(f.intOf(32)), FirstTimestamp: f.timeMs(), MaxTimestamp: f.timeMs(),
 		ProducerID: f.intOf(64), ProducerEpoch: int16(f.intOf(16)), FirstSequence: int32(f.intOf(32)),
-		IsTransactional: f.pick(2) == 1}
+		IsTransactional: f.boolv()}
 	n := f.count()
 	if nonEmpty && n == 0 {
 		n = 1
@@ -1289,7 +1313,7 @@ func (f *cbFill) recordBatch(codec CompressionCodec, nonEmpty bool) *RecordBatch
 }
 
 func (f *cbFill) message(magic int8) *Message {
-	m := &Message{Codec: CompressionNone, Key: f.bytes(), Value: f.bytes(), Version: magic, LogAppendTime: f.pick(2) == 1}
+	m := &Message{Codec: CompressionNone, Key: f.bytes(), Value: f.bytes(), Version: magic, LogAppendTime: f.boolv()}
 	if magic >= 1 {
 		m.Timestamp = f.timeMs()
 	}
@@ -1567,6 +1591,17 @@ func cbModeName(mode int) string {
 func cbMakeBody(b cbBody, version int16, mode int, rng *rand.Rand, attempt int) protocolBody {
 	body := b.mk()
 	f := &cbFill{rng: rng, mode: mode, version: version, shape: cbShapeOf(mode), pos: -1}
+	f.setScalarModes(mode)
+	if attempt > 0 {
+		switch attempt { // retries: flags off with zeros, flags off with -1s, then seeded random
+		case 1:
+			f.setScalarModes(0)
+		case 2:
+			f.setScalarModes(2)
+		default:
+			f.setScalarModes(len(cbScalarModes))
+		}
+	}
 	switch { // retries keep the collection shape and change the scalar values: all-zero (flags off), then -1s, then seeded random
 	case attempt == 1:
 		f.mode = 0
@@ -1611,9 +1646,11 @@ func cbMakeBody(b cbBody, version int16, mode int, rng *rand.Rand, attempt int) 
 				x.OrderedGroupProtocols = nil
 			}
 		}
-	case *OffsetRequest: // replica ids are >= 0; negative means "a client"
+	case *OffsetRequest: // replica ids are >= 0 (0 is a broker id), negative means "a client"; built through the exported setter
 		if x.replicaID < 0 {
 			x.isReplicaIDSet = false
+		} else if x.isReplicaIDSet {
+			x.SetReplicaID(x.replicaID)
 		}
 	}
 	return body
@@ -1678,12 +1715,14 @@ func (c *cbFramedEnc) encode(pe packetEncoder) error { return c.r.encode(pe) }
 func cbRecordSubjects(rng *rand.Rand, mode int) []*cbSubject {
 	var out []*cbSubject
 	f := &cbFill{rng: rng, mode: mode, shape: cbShapeOf(mode), pos: -1}
+	f.setScalarModes(mode)
+	analyse := mode < len(cbShapes) || mode%5 == 0
 	for codec := CompressionNone; codec <= CompressionZSTD; codec++ {
 		for _, lvl := range cbLevels[codec] {
 			b := f.recordBatch(codec, false)
 			b.CompressionLevel = lvl
 			out = append(out, &cbSubject{name: "RecordBatch", kind: "batch", version: int16(codec), fill: fmt.Sprintf("%s/%s/level%d", cbModeName(mode), codec, lvl),
-				value: b,
+				value: b, analyse: analyse,
 				fresh: func() (decoder, versionedDecoder, encoder) { n := &RecordBatch{}; return n, nil, n },
 				prepare: func(dec, orig encoder) {
 					dec.(*RecordBatch).CompressionLevel = orig.(*RecordBatch).CompressionLevel
@@ -1744,6 +1783,7 @@ func cbAfterUndecodableSubjects(rng *rand.Rand) []*cbSubject {
 				}
 			}
 			f := &cbFill{rng: rng, mode: 1, shape: cbShapeOf(1), pos: -1}
+			f.setScalarModes(1)
 			b := f.recordBatch(codec, true)
 			out = append(out, &cbSubject{name: "RecordBatch", kind: "batch", version: int16(codec),
 				fill: fmt.Sprintf("after-undecodable/%s/%s", variant, codec), value: b, before: poison, analyse: true,
